@@ -74,6 +74,7 @@ type Obligation struct {
 	modelTerms []string
 	QueryBytes int
 	QueryFile  string
+	enc        *Enc
 }
 
 type paramModel struct {
@@ -115,12 +116,14 @@ type Enc struct {
 	ghostUsed    map[string]bool
 	axiomAsserts []string
 	axiomNames   []string
+	products     [][2]string
+	regionElem   map[string][2]string
 }
 
 func newEnc(p *Prog, fn *ssa.Function, spec *FuncSpec) *Enc {
 	e := &Enc{p: p, st: newSortTable(), regionSort: map[string]string{}, regionConst: map[string]string{}, root: fn, rootSpec: spec,
 		abstractions: map[string]bool{}, strLits: map[string]string{}, oblNames: map[string]int{},
-		usedTrusted: map[string]string{}, usedHavoc: map[string]bool{}, usedInline: map[string]bool{}, usedEffFree: map[string]bool{}, tupleVals: map[tupleKey]string{}, ghostUsed: map[string]bool{}}
+		usedTrusted: map[string]string{}, usedHavoc: map[string]bool{}, usedInline: map[string]bool{}, usedEffFree: map[string]bool{}, tupleVals: map[tupleKey]string{}, ghostUsed: map[string]bool{}, regionElem: map[string][2]string{}}
 	e.regionSort["heapTop"] = "Int"
 	return e
 }
@@ -134,6 +137,15 @@ func (e *Enc) fresh(prefix, sortName string) string {
 	n := fmt.Sprintf("%s!%d", sanitize(prefix), e.nfresh)
 	e.out = append(e.out, fmt.Sprintf("(declare-const %s %s)", n, sortName))
 	return n
+}
+
+// memRange asserts that every cell of a fresh integer-element memory holds a value of the element type.
+func (e *Enc) memRange(region, c string) {
+	rg, ok := e.regionElem[region]
+	if !ok {
+		return
+	}
+	e.out = append(e.out, fmt.Sprintf("(assert (forall ((zi Int)) (! (and (<= %s (select %s zi)) (<= (select %s zi) %s)) :pattern ((select %s zi)))))", rg[0], c, c, rg[1], c))
 }
 
 func sanitize(s string) string {
@@ -169,6 +181,9 @@ func (e *Enc) memRegion(elem types.Type) string {
 	r := "mem:" + typeKey(elem)
 	if _, ok := e.regionSort[r]; !ok {
 		e.regionSort[r] = "(Array Int " + e.st.sortOf(elem) + ")"
+		if lo, hi, ok := intRange(elem); ok {
+			e.regionElem[r] = [2]string{intLit(lo), intLit(hi)}
+		}
 	}
 	return r
 }
@@ -222,6 +237,7 @@ func (e *Enc) get(s *state, region string) string {
 	if !ok {
 		c = e.fresh("R."+region+".e"+key[strings.LastIndex(key, "@")+1:], so)
 		e.regionConst[key] = c
+		e.memRange(region, c)
 		if region == "heapTop" {
 			e.assume(app("<=", "1", c))
 		}
@@ -238,6 +254,7 @@ func (e *Enc) set(s *state, region, term string) {
 
 func (e *Enc) havocRegion(s *state, region string) {
 	s.regs[region] = e.fresh("H."+region, e.regionSort[region])
+	e.memRange(region, s.regs[region])
 	if region == "heapTop" {
 		e.errf("internal: heapTop havoc")
 	}
